@@ -109,6 +109,14 @@ CHECKS = {
         "formatting tables - minimal disambiguation over the 8 flag combinations, flags only from other legal candidates of the same piece "
         "and destination, '+'/'#' from the successor position, capture flag. Text-level round trip and 'standard notation' are not decided.",
    note=TB + "Letter tables are checked under C12 (alphabets)."),
+ "C10": dict(cat="other", ref="DESIGN.md §3 C10",
+   technique="exhaustive tabulation of UCI kind inference by constant propagation with a symbolic board-memory oracle; conversion tables; path rules on the readers",
+   text="Static: uci::Move::into_move is folded per promotion value and its residual tree evaluated over source cell x 64x64 squares x "
+        "destination empty/occupied x en-passant mark, and must agree - modulo tuples no reader can accept - with the UCI semantics "
+        "(double step, en passant, castling, promotion, simple); kind/promotion/piece conversions and the n/b/r/q letter tables are "
+        "mutually inverse; the semilegal/legal readers return Ok only after semi_validate/validate of the converted text on that board; "
+        "Null is never semilegal. 'Succeeds exactly when such a move exists' additionally needs C06/C01 and is not decided here.",
+   note=TB + "quick tier tabulates 6 representative source cells and 3 promotion values per colour, thorough all 13 x 5."),
 }
 
 NOT_YET = {}
